@@ -56,7 +56,7 @@ pub fn check_value(ctx: &mut Ctx, e: &TypeEntry, v: &dyn AnyVal, tags: &Tags) {
     let bytes = match guard(|| v.to_bytes()) {
         Ok(b) => b,
         Err(p) => {
-            ctx.violation(&format!("{}/to_bytes/{}", name, p.sig()), json!({"value": clip(&v.debug()), "loc": p.loc, "msg": p.msg}));
+            ctx.violation(&p.sig_at(&format!("{}/to_bytes", name)), json!({"value": clip(&v.debug()), "loc": p.loc, "msg": p.msg}));
             return;
         }
     };
@@ -70,14 +70,14 @@ pub fn check_value(ctx: &mut Ctx, e: &TypeEntry, v: &dyn AnyVal, tags: &Tags) {
             return;
         }
         Err(p) => {
-            ctx.violation(&format!("{}/from_bytes(to_bytes)/{}", name, p.sig()), json!({"bytes": hx(&bytes), "msg": p.msg}));
+            ctx.violation(&p.sig_at(&format!("{}/from_bytes(to_bytes)", name)), json!({"bytes": hx(&bytes), "msg": p.msg}));
             return;
         }
     };
     let bytes2 = match guard(|| d.to_bytes()) {
         Ok(b) => b,
         Err(p) => {
-            ctx.violation(&format!("{}/to_bytes(decoded)/{}", name, p.sig()), json!({"bytes": hx(&bytes), "msg": p.msg}));
+            ctx.violation(&p.sig_at(&format!("{}/to_bytes(decoded)", name)), json!({"bytes": hx(&bytes), "msg": p.msg}));
             return;
         }
     };
@@ -106,7 +106,7 @@ pub fn check_value(ctx: &mut Ctx, e: &TypeEntry, v: &dyn AnyVal, tags: &Tags) {
                 };
                 ctx.violation(&format!("{}/decoded-value-differs/{}", name, cls), json!({"bytes": hx(&bytes), "diff": diff}));
             }
-            Err(p) => ctx.violation(&format!("{}/eq/{}", name, p.sig()), json!({"bytes": hx(&bytes)})),
+            Err(p) => ctx.violation(&p.sig_at(&format!("{}/eq", name)), json!({"bytes": hx(&bytes)})),
         }
     } else {
         ctx.bucket("types.compared-by-bytes-only");
@@ -125,11 +125,11 @@ pub fn check_value(ctx: &mut Ctx, e: &TypeEntry, v: &dyn AnyVal, tags: &Tags) {
                     }
                 }
                 Ok(Err(err)) => ctx.violation(&format!("{}/from_hex/error-where-from_bytes-ok", name), json!({"hex": h, "error": err})),
-                Err(p) => ctx.violation(&format!("{}/from_hex/{}", name, p.sig()), json!({"hex": h})),
+                Err(p) => ctx.violation(&p.sig_at(&format!("{}/from_hex", name)), json!({"hex": h})),
             }
             // upper-case hex must behave like the byte path too (hex is case-insensitive) or fail explicitly
         }
-        Err(p) => ctx.violation(&format!("{}/to_hex/{}", name, p.sig()), json!({"bytes": hx(&bytes)})),
+        Err(p) => ctx.violation(&p.sig_at(&format!("{}/to_hex", name)), json!({"bytes": hx(&bytes)})),
     }
     ctx.bucket("types.roundtrip-ok");
     ctx.bucket(&format!("type.{}", name));
